@@ -52,10 +52,13 @@ static _Bool nv_std_isfinite(double x) { return !__CPROVER_isnand(x) && !__CPROV
 #define NV_EQ_F(a, b) NV_SAME(a, b)
 #define NV_OLD(e) __CPROVER_old(e)
 
-/* double -> int64 is defined only for finite values whose truncation is representable, i.e. -2^63 <= x < 2^63.
- * (CBMC's conversion check also rejects x == -2^63 exactly, which C++ defines; the guard below follows the checker,
- * so that single value is left undecided rather than claimed.) */
-#define NV_F2I_DEFINED(x) (NV_FIN_F(x) && (x) > -9223372036854775808.0 && (x) < 9223372036854775808.0)
+/* (TS)x inside a contract: for a floating source and int64 target the boundary value -2^63 (defined by C++, flagged by
+ * CBMC's conversion check) is converted without the built-in cast */
+#define NV_CONV(TS, x) NV_CONV_##TS(x)
+#define NV_CONV_double(x) ((double)(x))
+#define NV_CONV_int64_t(x) _Generic((x), double: (((x) == -9223372036854775808.0) ? INT64_MIN : (int64_t)(x)), default: ((int64_t)(x)))
+/* double -> int64 is defined only for finite values whose truncation is representable, i.e. -2^63 <= x < 2^63 */
+#define NV_F2I_DEFINED(x) (NV_FIN_F(x) && (x) >= -9223372036854775808.0 && (x) < 9223372036854775808.0)
 
 /* ------------------------------------------------------------------ ::check<tscalar>(lelt, v1, v2) */
 #define NV_CONTRACT_CHECK \
@@ -69,8 +72,8 @@ __CPROVER_ensures(__CPROVER_return_value == NV_CMP(*lelt, value1, value2))
  * G: guard (which alternative is active), DEF: the conversion (TS)x is defined, x: the assigned number.
  * Every clause that mentions (TS)x is guarded by DEF, so the contract never evaluates an undefined cast. */
 #define NV_POST_R(G, FIN, EQ, TS, DEF, r, x) \
-__CPROVER_ensures(((G) && (DEF) && NV_DOM_R(FIN, r, ((TS)(x)))) ==> (!nv_thrown && EQ((r).m_value, ((TS)(x))))) \
-__CPROVER_ensures(((G) && (DEF) && !NV_DOM_R(FIN, r, ((TS)(x)))) ==> nv_thrown) \
+__CPROVER_ensures(((G) && (DEF) && NV_DOM_R(FIN, r, NV_CONV(TS, x))) ==> (!nv_thrown && EQ((r).m_value, NV_CONV(TS, x)))) \
+__CPROVER_ensures(((G) && (DEF) && !NV_DOM_R(FIN, r, NV_CONV(TS, x))) ==> nv_thrown) \
 __CPROVER_ensures(((G) && nv_thrown) ==> EQ((r).m_value, NV_OLD((r).m_value))) \
 __CPROVER_ensures(((G) && !nv_thrown) ==> NV_DOM_R(FIN, r, (r).m_value)) \
 __CPROVER_ensures(((G) && NV_DOM_R(FIN, r, NV_OLD((r).m_value))) ==> NV_DOM_R(FIN, r, (r).m_value)) \
@@ -79,8 +82,8 @@ __CPROVER_ensures(EQ((r).m_min, NV_OLD((r).m_min)) && EQ((r).m_max, NV_OLD((r).m
 #define NV_SAME_R(EQ, r) (EQ((r).m_value, NV_OLD((r).m_value)))
 
 #define NV_POST_P(G, FIN, EQ, TS, DEF, r, x1, x2) \
-__CPROVER_ensures(((G) && (DEF) && NV_DOM_P(FIN, r, ((TS)(x1)), ((TS)(x2)))) ==> (!nv_thrown && EQ((r).m_value1, ((TS)(x1))) && EQ((r).m_value2, ((TS)(x2))))) \
-__CPROVER_ensures(((G) && (DEF) && !NV_DOM_P(FIN, r, ((TS)(x1)), ((TS)(x2)))) ==> nv_thrown) \
+__CPROVER_ensures(((G) && (DEF) && NV_DOM_P(FIN, r, NV_CONV(TS, x1), NV_CONV(TS, x2))) ==> (!nv_thrown && EQ((r).m_value1, NV_CONV(TS, x1)) && EQ((r).m_value2, NV_CONV(TS, x2)))) \
+__CPROVER_ensures(((G) && (DEF) && !NV_DOM_P(FIN, r, NV_CONV(TS, x1), NV_CONV(TS, x2))) ==> nv_thrown) \
 __CPROVER_ensures(((G) && nv_thrown) ==> (EQ((r).m_value1, NV_OLD((r).m_value1)) && EQ((r).m_value2, NV_OLD((r).m_value2)))) \
 __CPROVER_ensures(((G) && !nv_thrown) ==> NV_DOM_P(FIN, r, (r).m_value1, (r).m_value2)) \
 __CPROVER_ensures(((G) && NV_DOM_P(FIN, r, NV_OLD((r).m_value1), NV_OLD((r).m_value2))) ==> NV_DOM_P(FIN, r, (r).m_value1, (r).m_value2)) \
@@ -100,7 +103,12 @@ __CPROVER_ensures(!nv_thrown ==> __CPROVER_return_value == param)
 #define NV_CONTRACT_update_ir_ll  NV_CONTRACT_UPDATE_R(NV_FIN_I, NV_EQ_I, int64_t, 1)
 /* double -> integer parameter, for EVERY double (the property quantifies over NaN / inf assignments and no caller
  * filters them: parameter_t::operator=(double) -> setd -> update(storage, double) -> here) */
-#define NV_CONTRACT_update_ir_f64 NV_CONTRACT_UPDATE_R(NV_FIN_I, NV_EQ_I, int64_t, NV_F2I_DEFINED(value_))
+/* a real number assigned to an integer parameter: a value that is not finite or not representable as int64 is rejected
+ * before the conversion (it was undefined behaviour before the repair recorded in known_findings.txt).
+ * (CBMC's own conversion check wrongly flags x == -2^63, which C++ defines: the printer emits NV_F2I64 for such casts, whose
+ * obligation is the exact C++ definedness condition.) */
+#define NV_CONTRACT_update_ir_f64 NV_CONTRACT_UPDATE_R(NV_FIN_I, NV_EQ_I, int64_t, NV_F2I_DEFINED(value_)) \
+__CPROVER_ensures(!NV_F2I_DEFINED(value_) ==> nv_thrown)
 #define NV_CONTRACT_update_fr_f64 NV_CONTRACT_UPDATE_R(NV_FIN_F, NV_EQ_F, double, 1)
 #define NV_CONTRACT_update_fr_i64 NV_CONTRACT_UPDATE_R(NV_FIN_F, NV_EQ_F, double, 1)
 
@@ -114,7 +122,8 @@ __CPROVER_ensures(!nv_thrown ==> __CPROVER_return_value == param)
 #define NV_CONTRACT_update_ip_i64 NV_CONTRACT_UPDATE_P(NV_FIN_I, NV_EQ_I, int64_t, 1)
 #define NV_CONTRACT_update_ip_ll  NV_CONTRACT_UPDATE_P(NV_FIN_I, NV_EQ_I, int64_t, 1)
 #define NV_CONTRACT_update_ip_i32 NV_CONTRACT_UPDATE_P(NV_FIN_I, NV_EQ_I, int64_t, 1)
-#define NV_CONTRACT_update_ip_f64 NV_CONTRACT_UPDATE_P(NV_FIN_I, NV_EQ_I, int64_t, NV_F2I_DEFINED(value1_) && NV_F2I_DEFINED(value2_))
+#define NV_CONTRACT_update_ip_f64 NV_CONTRACT_UPDATE_P(NV_FIN_I, NV_EQ_I, int64_t, NV_F2I_DEFINED(value1_) && NV_F2I_DEFINED(value2_)) \
+__CPROVER_ensures(!(NV_F2I_DEFINED(value1_) && NV_F2I_DEFINED(value2_)) ==> nv_thrown)
 #define NV_CONTRACT_update_fp_f64 NV_CONTRACT_UPDATE_P(NV_FIN_F, NV_EQ_F, double, 1)
 #define NV_CONTRACT_update_fp_i64 NV_CONTRACT_UPDATE_P(NV_FIN_F, NV_EQ_F, double, 1)
 #define NV_CONTRACT_update_fp_i32 NV_CONTRACT_UPDATE_P(NV_FIN_F, NV_EQ_F, double, 1)
@@ -307,7 +316,7 @@ __CPROVER_assigns(nv_thrown)
 #define NV_CONTRACT_value_i64 \
 NV_READ_REQ(self->m_storage.index != 3 || NV_F2I_DEFINED(self->m_storage.a3.m_value)) \
 __CPROVER_ensures(self->m_storage.index == 2 ==> (!nv_thrown && NV_RET == self->m_storage.a2.m_value)) \
-__CPROVER_ensures(self->m_storage.index == 3 ==> (!nv_thrown && NV_RET == (int64_t)self->m_storage.a3.m_value)) \
+__CPROVER_ensures(self->m_storage.index == 3 ==> (!nv_thrown && NV_RET == NV_CONV_int64_t(self->m_storage.a3.m_value))) \
 __CPROVER_ensures((self->m_storage.index != 2 && self->m_storage.index != 3) ==> nv_thrown)
 #define NV_CONTRACT_value_f64 \
 NV_READ_REQ(1) \
@@ -317,7 +326,7 @@ __CPROVER_ensures((self->m_storage.index != 2 && self->m_storage.index != 3) ==>
 #define NV_CONTRACT_pair_i64 \
 NV_READ_REQ(self->m_storage.index != 5 || (NV_F2I_DEFINED(self->m_storage.a5.m_value1) && NV_F2I_DEFINED(self->m_storage.a5.m_value2))) \
 __CPROVER_ensures(self->m_storage.index == 4 ==> (!nv_thrown && NV_RET._0 == self->m_storage.a4.m_value1 && NV_RET._1 == self->m_storage.a4.m_value2)) \
-__CPROVER_ensures(self->m_storage.index == 5 ==> (!nv_thrown && NV_RET._0 == (int64_t)self->m_storage.a5.m_value1 && NV_RET._1 == (int64_t)self->m_storage.a5.m_value2)) \
+__CPROVER_ensures(self->m_storage.index == 5 ==> (!nv_thrown && NV_RET._0 == NV_CONV_int64_t(self->m_storage.a5.m_value1) && NV_RET._1 == NV_CONV_int64_t(self->m_storage.a5.m_value2))) \
 __CPROVER_ensures((self->m_storage.index != 4 && self->m_storage.index != 5) ==> nv_thrown)
 #define NV_CONTRACT_pair_f64 \
 NV_READ_REQ(1) \
